@@ -230,7 +230,10 @@ def c04(run: Any) -> list[Finding]:
     for ev in _starts(run):
         group = creation_group(ev)
         same = [starts[x] for x in ev["running_now"] if creation_group(starts[x]) == group and starts[x]["scope"] == ev["scope"] and starts[x]["worker"] != ev["worker"]]
-        mct = ev["params"].get("max_concurrent_tries", ev["params"].get("max_tries", 1))
+        # the configured limit: the traversal raises the node's own max_concurrent_tries when it lets a waiting
+        # worker in, so the value is taken from the run's configuration where it is given there
+        conf = run.scenario.params
+        mct = conf.get("max_concurrent_tries", conf.get("max_tries")) if ("max_concurrent_tries" in conf or "max_tries" in conf) else ev["params"].get("max_concurrent_tries", ev["params"].get("max_tries", 1))
         limit = max(1, int(mct or 1))
         if len(same) + 1 > limit:
             out.append((f"C04 {sc} concurrent {_short(ev['bridged'])}", f"{ev['worker']} started {_short(ev['bridged'])} while {[s['worker'] for s in same]} were executing it in scope {ev['scope']} (limit {limit})", {}))
